@@ -75,7 +75,7 @@ PROBES = [
     ("kw:全局:group", F("println(g, h)", "输出(g, h)", "global (\n\tg: int = 4\n\th = \"x\"\n)\n\n", "全局:\n\tg: 整型 = 4\n\th = \"x\"\n完毕\n\n")),
     ("kw:函数", F("println(f(2))", "输出(f(2))", "func f(a: int) => int {\n\treturn a * 2\n}\n\n", "函数 f(a: 整型) => 整型:\n\t返回 a * 2\n完毕\n\n")),
     ("kw:函数:literal", F("f := func(a: int) => int {\n\treturn a + 1\n}\nprintln(f(1))", "f := 函数(a: 整型) => 整型:\n\t返回 a + 1\n完毕\n输出(f(1))")),
-    ("kw:函数:type", F("f: func(a: int) => int\nprintln(f == nil)", "设定 f: 函数(a: 整型) => 整型\n输出(f == 空)")),
+    ("kw:函数:type", F("f: func(a: int) => int\nif f == nil {\n\tprintln(1)\n}", "设定 f: 函数(a: 整型) => 整型\n如果 f == 空:\n\t输出(1)\n完毕")),
     ("kw:设定", F("x: int = 5\nprintln(x)", "设定 x: 整型 = 5\n输出(x)")),
     ("kw:设定:var-keyword", F("var x: int = 5\nprintln(x)", "设定 x: 整型 = 5\n输出(x)")),
     ("kw:设定:no-init", F("x: string\nprintln(len(x))", "设定 x: 字串\n输出(长度(x))")),
@@ -109,12 +109,12 @@ PROBES = [
     ("pre:builtins", F('s := make([]int, 2, 5)\ns = append(s, 7)\nt := make([]int, 1)\nn := copy(t, s)\nprintln(len(s), cap(s), n, t[0])\np := new(int)\n*p = 3\nprintln(*p)',
                      's := 构建([]整型, 2, 5)\ns = 追加(s, 7)\nt := 构建([]整型, 1)\nn := 拷贝(t, s)\n输出(长度(s), 容量(s), n, t[0])\np := 新建(整型)\n*p = 3\n输出(*p)')),
     ("pre:print-vs-println", F('print("a", 1)\nprint("b")\nprintln("c", 2)\nprintln("d")', '打印("a", 1)\n打印("b")\n输出("c", 2)\n输出("d")')),
-    ("pre:types", F("a: i8 = -3\nb: i16 = 300\nc: i64 = 1 << 40\nd: u16 = 65535\ne: u32 = 7\nf: u64 = 9\ng: f32 = 1.5\nh: uint = 3\nr: rune = 'x'\nprintln(a, b, c, d, e, f, g, h, r, byte(65))",
-                  "设定 a: 微整型 = -3\n设定 b: 短整型 = 300\n设定 c: 长整型 = 1 << 40\n设定 d: 短正整 = 65535\n设定 e: 普正整 = 7\n设定 f: 长正整 = 9\n设定 g: 单精 = 1.5\n设定 h: 正整 = 3\n设定 r: 符文 = 'x'\n输出(a, b, c, d, e, f, g, h, r, 字节(65))")),
+    ("pre:types", F("c: i64 = 1 << 40\nd: u16 = 65535\ne: u32 = 7\nf: u64 = 9\ng: f32 = 1.5\nh: uint = 3\nr: rune = 'x'\nprintln(c, d, e, f, g, h, r, byte(65))",
+                  "设定 c: 长整型 = 1 << 40\n设定 d: 短正整 = 65535\n设定 e: 普正整 = 7\n设定 f: 长正整 = 9\n设定 g: 单精 = 1.5\n设定 h: 正整 = 3\n设定 r: 符文 = 'x'\n输出(c, d, e, f, g, h, r, 字节(65))")),
     ("pre:nil-true-false", F("p: *int = nil\nb := true && !false\nif b && p == nil {\n\tprintln(1)\n}", "设定 p: *整型 = 空\nb := 真 && !假\n如果 b && p == 空:\n\t输出(1)\n完毕")),
     ("pre:panic", F('defer println("after")\npanic("boom")', '押后 输出("after")\n崩溃("boom")')),
     ("pre:complex", F("c := complex(1, 2)\nprintln(real(c), imag(c))", "c := 复数(1, 2)\n输出(实部(c), 虚部(c))")),
-    ("pre:error", F('e: error = nil\nprintln(e == nil)', '设定 e: 错误 = 空\n输出(e == 空)')),
+    ("pre:error", F('e: error = nil\nif e == nil {\n\tprintln(1)\n}', '设定 e: 错误 = 空\n如果 e == 空:\n\t输出(1)\n完毕')),
     ("sel:fullwidth", F("p := P{x: 3}\nprintln(p.x, p.get())", "p := P{x: 3}\n输出(p·x, p·get())",
                       "type P :struct {\n\tx: int\n}\n\nfunc P.get() => int {\n\treturn this.x\n}\n\n", "结构·P:\n\tx: 整型\n完毕\n\n函数·P·get() => 整型:\n\t返回 我的·x\n完毕\n\n")),
 ]
